@@ -114,10 +114,10 @@ def hostile_pe(rng, kind):
         epi = b"".join((bytes([0x58 + r]) if r < 8 else bytes([0x41, 0x58 + r - 8])) for r in regs16[:n]) + bytes([0xC3])
         f1 = funcs[1]
         f1[1] = max(f1[1], f1[0] + len(epi) + 4)
-        for j, (bb, ee, ii) in enumerate(funcs[2:], 2):
-            if funcs[j][0] < f1[1]:
-                d = f1[1] - funcs[j][0] + 4
-                funcs[j][0] += d; funcs[j][1] += d
+        if len(funcs) > 2 and funcs[2][0] < f1[1]:
+            d = f1[1] - funcs[2][0] + 4
+            for ff in funcs[2:]:                 # keep the table sorted and free of duplicate begins
+                ff[0] += d; ff[1] += d
         need = max(ff[1] for ff in funcs) - text_lo + 8
         if need > len(text):
             text += bytearray([0x90] * (need - len(text)))
